@@ -2485,6 +2485,48 @@ impl<'a> Binder<'a> {
     ) -> Result<Expr> {
         use crate::planner::logical_expr::{FrameBound, FrameUnits, WindowFrame, WindowFunc};
 
+        // Call modifiers WindowExec does not implement are refused BY NAME. They
+        // used to be parsed and silently dropped: `LAG(x) IGNORE NULLS` answered
+        // as `LAG(x)`, `SUM(x) FILTER (WHERE ..)` as `SUM(x)`, `COUNT(DISTINCT x)`
+        // as `COUNT(x)`.
+        if func.filter.is_some() {
+            return Err(QueryError::NotImplemented(format!(
+                "FILTER (WHERE ...) on window function {name}"
+            )));
+        }
+        if matches!(func.null_treatment, Some(ast::NullTreatment::IgnoreNulls)) {
+            return Err(QueryError::NotImplemented(format!(
+                "IGNORE NULLS on window function {name}"
+            )));
+        }
+        if !func.within_group.is_empty() {
+            return Err(QueryError::NotImplemented(format!(
+                "WITHIN GROUP on window function {name}"
+            )));
+        }
+        if let ast::FunctionArguments::List(list) = &func.args {
+            if matches!(
+                list.duplicate_treatment,
+                Some(ast::DuplicateTreatment::Distinct)
+            ) {
+                return Err(QueryError::NotImplemented(format!(
+                    "DISTINCT in window function {name}"
+                )));
+            }
+            for clause in &list.clauses {
+                match clause {
+                    ast::FunctionArgumentClause::IgnoreOrRespectNulls(
+                        ast::NullTreatment::RespectNulls,
+                    ) => {}
+                    other => {
+                        return Err(QueryError::NotImplemented(format!(
+                            "argument clause `{other}` in window function {name}"
+                        )))
+                    }
+                }
+            }
+        }
+
         // Resolve the window spec, following one level of naming.
         let spec: ast::WindowSpec = match over {
             ast::WindowType::WindowSpec(s) => s.clone(),
